@@ -18,7 +18,7 @@ from pyvc import driver  # noqa: E402
 # property -> suites whose contracts carry clauses tagged with it
 PROP_SUITES = {
     'C01': ['tcpcl'], 'C04': ['tcpcl'], 'C07': ['tcpcl'], 'C09': ['tcpcl', 'tagent'], 'C14': ['tcpcl'], 'C15': ['tcpcl'],
-    'C17': ['tcpcl'], 'C18': ['tcpcl', 'udpcl'],
+    'C17': ['tcpcl'], 'C18': ['tcpcl', 'udpcl', 'tagent'],
     'C02': ['bp'], 'C05': ['bp'], 'C06': ['bp'], 'C08': ['bp'], 'C10': ['bp'], 'C11': ['bp'], 'C12': ['bp'], 'C19': ['bp'],
     'C13': ['udpcl'], 'C20': ['btpu'],
 }
